@@ -457,6 +457,18 @@ def run(rep: Report, tier: str) -> None:
     rep.rule("R13.9", "a scalar (or dataset) read inside a clause is a scheduled input of every statement that reads it (shared rule: C12 R12.9)")
     from sa.checks.c12 import unknown_resolution
     unknown_resolution(P, rep, "R13.9")
+    # ---- R13.8: every handler of the dependency analysis descends into its node's operand fields on every path (shared with C12) ----
+    rep.rule("R13.8", "every handler of the dependency analysis that descends into an operand-bearing field of its node does so on every path: a parameter or operand that is "
+                      "skipped is not an input of the statement, the statements are not ordered after its producer and its table is released before the reader runs")
+    from sa.checks.c12 import traversal_on_every_path as _traversal
+    _traversal(P, rep, "R13.8")
+    from sa.checks.c12 import handler_field_matrix as _matrix
+    _matrix(P, rep, "R13.8")
+    # ---- R13.9: a failed run leaves no session behind (shared with C16 R16.1) ----
+    rep.rule("R13.9", "configured_connection releases the session directory and the connection on every exit (normal, exception, generator close): the tables of the statements "
+                      "that ran before a failure do not outlive the run")
+    from sa.checks.c16 import session_resources as _session_resources
+    _session_resources(P, rep, "R13.9")
     rep.assumptions = ["normal-flow paths only for ordering (an exception aborts the run; its cleanup is C16)",
                        "the DAG's dependencies dict is filled in increasing statement number (single writer checked under R13.2)"]
 
